@@ -406,8 +406,8 @@ def run(st, tier, seed):
                 "a quarter of the runs start from an explicit sequence= file; non-trivial = at least one free location and "
                 "one eq class of >=2 positions or one wc pair; distinct by JSON of triple+options")
     rng = core.rng_for(seed, "c19")
-    n_runs = 200 if quick else 3000
-    n_tiny = 60 if quick else 700
+    n_runs = 200 if quick else 2000
+    n_tiny = 60 if quick else 500
     cap = 10.0 if quick else 60.0
     cases = []
     for i in range(n_runs):
@@ -436,7 +436,7 @@ def run(st, tier, seed):
     res.extra["binary_source"] = ssm.source_path()
     res.extra["wall_clock_cap_s"] = cap
     drv = core.Driver() if st.driver_ok else None
-    workers = 4 if quick else 6
+    workers = 4 if quick else 8
     stop_sigs = {}
     t_runs = time.time()
     pending = []
